@@ -146,6 +146,17 @@ class C01(Prop):
                 if g not in ctx.groups:
                     ctx.add("req", list(trip) + [dels([s])], group=g, stream=s, parts=1)
                 ctx.add("req", list(trip) + [dels(parts)], group=g, stream=s, parts=len(parts), exact=True)
+            # a maximum message size equal to (or one either side of) the exact total, the body arriving after
+            # the call that finishes the headers
+            if meta.get("body", 0) > 0 and ctx.rng.random() < 0.5:
+                tot, head = meta["head"] + meta["body"], meta["head"]
+                for mm in (tot, tot + 1, tot - 1):
+                    trip = ("d", "d", str(mm))
+                    g = ("seg", s, trip)
+                    ctx.add("req", list(trip) + [dels([s])], group=g, stream=s, parts=1)
+                    for cuts in ([head], [head + 1] if meta["body"] > 1 else [head], [head - 1], [len(s) - 1], [head, len(s) - 1]):
+                        parts = G.cut_at(s, sorted(set(c for c in cuts if 0 < c < len(s))))
+                        ctx.add("req", list(trip) + [dels(parts)], group=g, stream=s, parts=len(parts), exact=True)
         # all segmentations of short streams
         shorts = [b"GET / HTTP/1.1\r\n\r\n"[k:] for k in (0,)] + [
             b"G / HTTP/1.1\r\nA:b\r\n\r\n", b"P / HTTP/1.1\r\nContent-Length:2\r\n\r\nab"[:0] or b"G * HTTP/1.1\r\n\r\nX"]
@@ -435,6 +446,19 @@ class C06(Prop):
         for s, meta in resp_streams(ctx, ctx.n(300, 3000), p_odd=0.15, mutate_frac=0.5):
             parts = rng.choice(G.schedules(rng, s, 2))
             ctx.add("resp", [dels(parts)])
+        # one parser value fed two messages in succession (a caller that keeps the value on a persistent
+        # connection): whatever the first message left behind, the second call must return normally
+        for _ in range(ctx.n(200, 2000)):
+            m1 = G.gen_response(rng, 0.0)[0]
+            m2 = G.gen_response(rng, 0.05)[0]
+            if rng.random() < 0.3:
+                m2 = b"HTTP/1.1 200 OK\r\nContent-Length: %d\r\n\r\n" % rng.choice([0, 1, 2, 3, 5]) + b"abcde"[:rng.randint(0, 5)]
+            ctx.add("reuseresp", [dels(rng.choice(G.schedules(rng, m1, 2))), dels(rng.choice(G.schedules(rng, m2, 2)))])
+        for _ in range(ctx.n(100, 1000)):
+            m1, meta1 = G.gen_request(rng, 0.0)
+            m2 = G.gen_request(rng, 0.05)[0]
+            trip = rng.choice(G.limit_triples(rng, meta1, 2))
+            ctx.add("reusereq", list(trip) + [dels(rng.choice(G.schedules(rng, m1, 2))), dels(rng.choice(G.schedules(rng, m2, 2)))])
         # multi-byte UTF-8 at every slicing position of the start lines / content type
         for w in (b"\xc3\xa9", b"\xe2\x82\xac", b"\xf0\x9f\x98\x80"):
             base = b"GET /a HTTP/1.1"
@@ -679,6 +703,15 @@ class C09(Prop):
                 sfx = rng.choice(SUFFIXES)
                 cuts = sorted(rng.sample(range(1, len(s)), min(len(s) - 1, rng.randint(1, 3)))) if len(s) > 1 else []
                 ctx.add("resp", [dels(G.cut_at(s + sfx, cuts))], group=g, sfx=sfx, stream=s, split=True)
+        # a lone CR right before the CRLF that ends a line found by the crate's own line scanner
+        for s in (b"HTTP/1.1 200 OK\r\r\n\r\n", b"HTTP/1.1 200 OK\r\r\nA: b\r\n\r\n", b"HTTP/1.1 200 \r\r\n\r\n",
+                  b"HTTP/1.1 200 OK\r\nTransfer-Encoding: chunked\r\n\r\n0;x\r\r\n\r\n",
+                  b"HTTP/1.1 200 OK\r\nTransfer-Encoding: chunked\r\n\r\n1;y\r\r\na\r\n0\r\n\r\n",
+                  b"HTTP/1.1 200 OK\r\r\nContent-Length: 1\r\n\r\na"):
+            g = ("sfx", "resp", s)
+            ctx.add("resp", [dels([s])], group=g, base=True, stream=s)
+            for sfx in SUFFIXES[:6] + [b"X-Leak: 1\r\n\r\n", b"HTTP/1.1 200 OK\r\n\r\n"]:
+                ctx.add("resp", [dels([s + sfx])], group=g, sfx=sfx, stream=s)
         # connection-management headers and interim / body-less status codes must not move the boundary
         for code in (b"200", b"100", b"101", b"102", b"199", b"204", b"304", b"0"):
             for hs in (b"", b"Connection: close\r\n", b"connection: Close\r\n", b"Connection: keep-alive, close\r\n",
@@ -822,7 +855,8 @@ class C10(Prop):
             ctx.add("genreq", ["d", "d", "d", hx(b"GET"), hx(t), hdrs_spec([]), hx(b"")], target=t, wf=True)
         for _ in range(ctx.n(600, 6000)):
             meth, target, hs, body = wf_request_value(rng)
-            ctx.add("genreq", ["d", "d", "d", hx(meth), hx(target), hdrs_spec(hs), hx(body)], target=target, wf=True)
+            cut = rng.choice(["-", "-", "cr", str(rng.randrange(0, 400))])
+            ctx.add("genreq", ["d", "d", "d", hx(meth), hx(target), hdrs_spec(hs), hx(body), cut], target=target, wf=True)
         for _ in range(ctx.n(600, 6000)):
             _, _, hs, body = wf_request_value(rng)
             if not any(n.lower() == b"content-length" for n, _ in hs):
@@ -835,7 +869,8 @@ class C10(Prop):
                     hs = [(n, v) for n, v in hs if n.lower() != b"content-length"] + [(b"Content-Length", b"%d" % len(body))]
             code = rng.choice([0, 1, 7, 99, 100, 200, 404, 599, 999])
             reason = rng.choice(G.REASONS)
-            ctx.add("genresp", [code, hx(reason), hdrs_spec(hs), hx(body)], wf=True)
+            cut = rng.choice(["-", "-", "cr", str(rng.randrange(0, 400))])
+            ctx.add("genresp", [code, hx(reason), hdrs_spec(hs), hx(body), cut], wf=True)
 
     def relations(self, ctx, impl):
         for cid, m in ctx.meta.items():
@@ -874,9 +909,9 @@ class C11(Prop):
             s = b"GET " + t + b" HTTP/1.1\r\n\r\n"
             ctx.add("rtreq", ["d", "d", "d", hx(s)], stream=s)
         for s, meta in req_streams(ctx, ctx.n(800, 8000), p_odd=0.05, mutate_frac=0.3):
-            ctx.add("rtreq", ["d", "d", "d", hx(s)], stream=s)
+            ctx.add("rtreq", ["d", "d", "d", hx(s), rng.choice(["-", "-", "cr", str(rng.randrange(0, 300))])], stream=s)
         for s, meta in resp_streams(ctx, ctx.n(800, 8000), p_odd=0.05, mutate_frac=0.3):
-            ctx.add("rtresp", [hx(s)], stream=s)
+            ctx.add("rtresp", [hx(s), rng.choice(["-", "-", "cr", str(rng.randrange(0, 300))])], stream=s)
 
     def nontrivial(self, ctx, cid, canon):
         return canon.startswith("first=")
@@ -1015,7 +1050,8 @@ def add_decode_case(ctx, damaged=False, stack_only=False):
         toks.insert(unknown_at, rng.choice(["identity", "br", "x-gzip", "", "gzipp", "compress", " "]))
     hs = []
     for _ in range(rng.randint(0, 2)):
-        hs.append((rng.choice(["X-A", "Content-Type", "Content-Length", "content-length", "Host"]), rng.choice(["1", "text/plain", "zz"])))
+        hs.append((rng.choice(["X-A", "Content-Type", "Content-Length", "content-length", "Host", "Transfer-Encoding", "transfer-encoding", "Trailer"]),
+                   rng.choice(["1", "text/plain", "zz", "foobar", "gzip"])))
     # spread tokens over one or two Content-Encoding headers
     if len(toks) > 1 and rng.random() < 0.3:
         k = rng.randint(1, len(toks) - 1)
@@ -1090,6 +1126,13 @@ class C14(Prop):
             add_decode_case(ctx, damaged=rng.random() < 0.3)
         for v in ["", ",", "gzip,", ",gzip", "gzip,,", " , ", "identity", "GZIP , identity , gzip"]:
             ctx.add("dec", [hdrs_spec([("A", "1"), ("Content-Encoding", v), ("B", "2")]), hx(G.gz(b"xyz"))], hs=[("A", "1"), ("Content-Encoding", v), ("B", "2")], plain=None)
+        # raw deflate streams that look like zlib at their first two bytes: read as zlib they fail, and
+        # a failure leaves the headers as they were
+        for _ in range(ctx.n(60, 400)):
+            data, _plain = G.zlib_looking_raw(rng)
+            for enc in ("deflate", "gzip, deflate", "DEFLATE"):
+                hs = [("Date", "x"), ("Content-Encoding", enc)]
+                ctx.add("dec", [hdrs_spec(hs), hx(data)], hs=hs, plain=None)
         ctx.add("dec", [hdrs_spec([("A", "1")]), hx(b"xyz")], hs=[("A", "1")], plain=None)
 
     def relations(self, ctx, impl):
@@ -1353,6 +1396,11 @@ class C17(Prop):
             body = b"x" * liberal(s, 16)
             ctx.add("resp", [dels([CHUNK_PREFIX + s + b"\r\n" + body + b"\r\n0\r\n\r\n"])], field="chunk", text=s)
             ctx.add("resp", [dels([CHUNK_PREFIX + b"1\r\nx\r\n" + s + b"\r\n" + body + b"\r\n0\r\n\r\n"])], field="chunk2", text=s)
+            if len(s) <= 3 or rng.random() < 0.2:
+                first = CHUNK_PREFIX + b"1;note=abcdef\r\nx\r\n"
+                rest = s + b"\r\n" + body + b"\r\n0\r\n\r\n"
+                k = len(CHUNK_PREFIX) + rng.choice([2, 3, 8, 13, 14])
+                ctx.add("resp", [dels([first[:k], first[k:] + rest])], field="chunk2", text=s)
 
     def project(self, ctx, cid, canon):
         return "v=" + verdict_class(canon)
@@ -1401,6 +1449,19 @@ def case_variants(rng, s, n):
                 if (65 <= b[i] <= 90 or 97 <= b[i] <= 122) and rng.random() < 0.5:
                     b[i] ^= 0x20
         out.append(bytes(b))
+    # one occurrence at a time (all upper / first letter upper), the others untouched: a repeated name or
+    # token whose occurrences are treated differently depending on their spelling
+    extra = []
+    for a, e in spans[:6]:
+        for style in (0, 1):
+            b = bytearray(s)
+            for i in range(a, e if style == 0 else a + 1):
+                if 97 <= b[i] <= 122:
+                    b[i] ^= 0x20
+            if bytes(b) != s:
+                extra.append(bytes(b))
+    if n > 1:
+        out += extra[:6]
     return out
 
 
@@ -1465,6 +1526,12 @@ class C18(Prop):
             for _ in range(nv):
                 hs2 = [(case_variants(rng, n.encode(), 1)[0].decode(), case_variants(rng, v.encode(), 1)[0].decode()) for n, v in m["hs"]]
                 ctx.add("txt", [hdrs_spec(hs2), m["args"][1]], group=g, hs=hs2, body=m["body"])
+            # each occurrence of a relevant token on its own (repeated parameters)
+            for k, (n, v) in enumerate(m["hs"]):
+                for v2 in case_variants(rng, v.encode(), 2)[2:]:
+                    hs2 = list(m["hs"])
+                    hs2[k] = (n, v2.decode())
+                    ctx.add("txt", [hdrs_spec(hs2), m["args"][1]], group=g, hs=hs2, body=m["body"])
 
     @staticmethod
     def fold_headers(h):
@@ -1716,6 +1783,7 @@ def run(prop_id, tier, seed, replay=None):
         "checker_cmd": f"make -C coq Props/{prop_id}.vo (coqc 8.16.1, full .vo build)" + ("; coqchk -silent -o" if tier == "thorough" else ""),
         "trusted_base": TRUSTED_BASE,
         "theorems": proof["theorems"], "print_assumptions": proof["assumptions"], "proof_cone": proof["cone"],
+        "coqchk": (proof.get("coqchk") or "not run in the quick tier")[-600:],
         "evaluations": len(ctx.cases) * len(P.profiles),
         "distinct_nontrivial": len(nontriv),
         "rule": "structured generators (tools/gens.py) + malformed stream + exact-limit sweeps + delivery schedules, all from one PRNG seeded by VERIF_SEED; "
